@@ -92,7 +92,8 @@ def check_params(rep, hbin, seed):
     consts = ["MAX", "SANE", "CONSENSUS", "BareCtx::CONSENSUS", "BareCtx::SANE", "Legacy::CONSENSUS", "Legacy::SANE",
               "Segwitv0::CONSENSUS", "Segwitv0::SANE", "Tap::CONSENSUS", "Tap::SANE"]
     tab = [int(x) for x in re.search(r"g_limtab : list N := \[([^\]]*)\]", text).group(1).split(";")]
-    m = re.search(r"=\s*\(\[([^\]]*)\],\s*\[(.*)\]\)\s*:", re.sub(r"\s+", " ", d.stdout), flags=re.S) if d.returncode == 0 else None
+    dtext = re.sub(r"%\w+", "", re.sub(r"\s+", " ", d.stdout))
+    m = re.search(r"=\s*\(\[([^\]]*)\],\s*\[(.*)\]\)\s*:", dtext, flags=re.S) if d.returncode == 0 else None
     if not m:
         rep.violation("params-diag", "ParamTablesCheck.v fails and the diagnosis did not run: " + (d.stderr or c.stderr)[-800:],
                       {"property": PID, "broken_tie": "Tables/ParamTablesCheck.v"}, found_input=False)
@@ -105,10 +106,10 @@ def check_params(rep, hbin, seed):
                       (f.split(":=") for f in body.split(";"))}
     for cn in bad_consts:
         key = cn.replace("::", "_").replace("BareCtx", "Bare")
-        rep.violation("const:%s" % cn, "ValidationParams constant %s differs from the model: %s" % (cn, defs.get(key)),
-                      {"property": PID, "broken_tie": "constants_match_model (Tables/ParamTablesCheck.v)", "constant": cn,
-                       "implementation_value": defs.get(key),
-                       "note": "the case run of this check judges whether an accepted script now breaks its context"}, found_input=False)
+        info.setdefault("pending", []).append(
+            ("const:%s" % cn, "ValidationParams constant %s differs from the model: %s" % (cn, defs.get(key)),
+             {"property": PID, "broken_tie": "constants_match_model (Tables/ParamTablesCheck.v)", "constant": cn,
+              "implementation_value": defs.get(key)}))
     rows = re.findall(r"\((\d+), (\d+), (\d+), (true|false), (true|false), (true|false)\)", re.sub(r"\s+", " ", m.group(2)))
     info["differing_rows"] = len(rows)
     for a, b, re_, iok, eok, _me in rows[:10]:
@@ -156,7 +157,7 @@ def run_shard(args):
 
 
 def parse_diag(text):
-    flat = re.sub(r"\s+", " ", text)
+    flat = re.sub(r"%\w+", "", re.sub(r"\s+", " ", text))
     return [tuple(int(x) for x in t) for t in
             re.findall(r"\((\d+), (\d+), \((\d+), (\d+), (\d+), (\d+), (\d+), (\d+)\)\)", flat)]
 
@@ -178,7 +179,10 @@ def replay_obj(r, seed, key, what):
 
 
 def judge_obs(rep, rows, seed, hist):
-    """oracle verdicts computed by the harness on the implementation's own answers"""
+    """oracle verdicts computed by the harness on the implementation's own answers;
+    returns the violations that are not known findings"""
+    known = {kf["key"] for kf in rep.known}
+    unknown = []
     for r in rows:
         for key, what in r.get("violations", []):
             if key.startswith("advisory:"):
@@ -186,6 +190,9 @@ def judge_obs(rep, rows, seed, hist):
                 continue
             hist["oracle"][key] += 1
             rep.violation(key, what, replay_obj(r, seed, key, what), found_input=True)
+            if key not in known:
+                unknown.append((key, what, r))
+    return unknown
 
 
 def histograms(rows, hist):
@@ -264,8 +271,17 @@ def run(rep, tier, seed, replay):
                 class_diffs += stats[1]
             if status == "mismatch":
                 bad_shards.append((k, text))
-        judge_obs(rep, all_rows, seed, hist)
+        run_unknown = judge_obs(rep, all_rows, seed, hist)
         histograms(all_rows, hist)
+        # a changed constant: does some accepted script now break its context (judged above by the oracle)?
+        for key, what, obj in pinfo.pop("pending", []):
+            if run_unknown:
+                fk, fw, fr = run_unknown[0]
+                obj.update(replay_obj(fr, seed, fk, fw))
+                obj["broken_tie"] = "constants_match_model (Tables/ParamTablesCheck.v)"
+                rep.violation(key, what + "; the property fails on `%s` (%s): %s" % ((fr.get("string") or "")[:200], fr.get("ctx"), fw), obj, found_input=True)
+            else:
+                rep.violation(key, what + "; no accepted script breaking its context was found in this run", obj, found_input=False)
         # ---- on-break protocol for the correspondence
         tie_ok = not bad_shards
         n_diff = 0
@@ -299,9 +315,17 @@ def run(rep, tier, seed, replay):
                         extra = [json.loads(l) for l in open(os.path.join(dd, "obs.jsonl")).read().splitlines()[1:] if l.strip()]
                     except OSError:
                         extra = []
-                    judge_obs(rep, extra, seed, hist)
+                    run_unknown += judge_obs(rep, extra, seed, hist)
                     unknown = [v for e in extra for v in e.get("violations", []) if not v[0].startswith("advisory:") and v[0] not in {kf["key"] for kf in rep.known}]
-                if not unknown:
+                if not unknown and run_unknown:
+                    # the property fails on another input of this run: report the broken tie together with that input
+                    fk, fw, fr = run_unknown[0]
+                    obj = replay_obj(fr, seed, fk, fw)
+                    obj.update({"broken_tie": "cases_match_model (Tables/ValidateCasesCheck.v)", "disagreeing_call": gk, "disagreeing_case": cid,
+                                "disagreeing_input": r.get("string"), "calls_in_group": len(items)})
+                    rep.violation("tie:" + gk, "model and code disagree on %d call(s) (%s); the property fails on `%s` (%s): %s" %
+                                  (len(items), gk, (fr.get("string") or "")[:200], fr.get("ctx"), fw), obj, found_input=True)
+                elif not unknown:
                     rep.violation("tie:" + gk, "model and code disagree on %d call(s), e.g. case %d `%s` (%s): %s; no accepted script breaking its context "
                                   "and no inexact switch was found among the disagreeing cases or 120 further cases of the same recipe" %
                                   (len(items), cid, (r.get("string") or "")[:300], r.get("ctx"), gk),
